@@ -117,6 +117,21 @@ func checkViews(t failer, upper, lower uint64) {
 	if err := fromDec.UnmarshalJSON([]byte(dec)); err != nil || !eq(&fromDec, upper, lower) {
 		t.Fatalf("UnmarshalJSON(%s) = %s, %v", dec, show(&fromDec), err)
 	}
+	// JSON-decoding gives back the original value also when the destination already
+	// holds another value (encoding/json reuses a non-nil pointee, e.g. a *Uint128
+	// struct field decoded twice): every word of the previous value must be replaced
+	for _, prev := range []scale.Uint128{
+		{Upper: 1, Lower: 0}, {Upper: ^uint64(0), Lower: ^uint64(0)}, {Upper: 1 << 56, Lower: 7}, {Upper: 0, Lower: ^uint64(0)},
+	} {
+		used := prev
+		if err := json.Unmarshal([]byte(dec), &used); err != nil || !eq(&used, upper, lower) {
+			t.Fatalf("json.Unmarshal(%s) into a Uint128 that held %s = %s, %v (%s)", dec, show(&prev), show(&used), err, ctx)
+		}
+		holder := struct{ Amount *scale.Uint128 }{Amount: &scale.Uint128{Upper: prev.Upper, Lower: prev.Lower}}
+		if err := json.Unmarshal([]byte(`{"Amount":`+dec+`}`), &holder); err != nil || !eq(holder.Amount, upper, lower) {
+			t.Fatalf("json.Unmarshal into a struct whose *Uint128 field held %s = %s, %v (%s)", show(&prev), show(holder.Amount), err, ctx)
+		}
+	}
 
 	// byte forms: minimal (trimmed) encodings of n
 	full := le16(n)
